@@ -24,7 +24,7 @@ var injectKinds = []string{
 	"prop-nil", "prop-pol-big", "prop-pol-neg2", "prop-total-neg", "prop-total-huge", "prop-sig-nil", "prop-h-wrong", "prop-r-wrong", "prop-hash-nil",
 	"part-nil", "part-idx-neg", "part-idx-big", "part-bytes", "part-aunt", "part-h-wrong", "part-proof-nil",
 	"nrs-neg", "nrs-big", "nrs-step0", "nrs-match", "nrs-match", "nrs-match", "commitstep-bits", "commitstep-total-neg", "hasvote-neg", "hasvote-big", "hasvote-type0",
-	"maj23-garbage", "maj23-type0", "maj23-r-neg", "maj23-r-big", "bits-mismatch", "bits-nil", "bits-huge", "bits-r-neg", "pol-neg", "pol-huge",
+	"maj23-garbage", "maj23-type0", "maj23-r-neg", "maj23-r-big", "bits-mismatch", "bits-nil", "bits-huge", "bits-r-neg", "bits-type-bad", "pol-neg", "pol-huge",
 	"vote-r-stream", "vote-r-stream",
 	"raw-empty", "raw-1byte", "raw-trunc", "raw-flip", "raw-random", "raw-lenprefix", "wrong-channel", "unknown-channel",
 }
@@ -270,6 +270,8 @@ func injector(w *World, a simrt.Action) bool {
 		ch, bz = pbft.VoteSetBitsChannel, enc(&pbft.VoteSetBitsMessage{Height: []int64{h, h - 1}[sel%2], Round: r, Type: types.VoteTypePrevote, Votes: &gcmn.BitArray{Bits: []int{1 << 20, 1 << 30, -5}[sel%3], Elems: []uint64{1, 2, 3}}})
 	case "bits-r-neg":
 		ch, bz = pbft.VoteSetBitsChannel, enc(&pbft.VoteSetBitsMessage{Height: h, Round: -1 - sel%3, Type: types.VoteTypePrevote, Votes: gcmn.NewBitArray(len(w.vals))})
+	case "bits-type-bad":
+		ch, bz = pbft.VoteSetBitsChannel, enc(&pbft.VoteSetBitsMessage{Height: h, Round: r, Type: []byte{0, 3, 0x7f, 0xff}[sel%4], Votes: gcmn.NewBitArray(len(w.vals))})
 	case "pol-neg":
 		ch, bz = pbft.DataChannel, enc(&pbft.ProposalPOLMessage{Height: h, ProposalPOLRound: -1 - sel%3, ProposalPOL: &gcmn.BitArray{Bits: -3}})
 	case "pol-huge":
